@@ -17,8 +17,8 @@ for d in ${SEEDS:-seeded/C*-m*}; do
   if git -C "$WT" apply /verif/$P 2>/dev/null; then
     res=$(VERIF_REPO="$WT" ./vf $prop --tier quick 2>&1)
     git -C "$WT" checkout -- . ; git -C "$WT" clean -fdq
-    n=$(echo "$res" | grep -c "^VIOLATION")
-    key=$(echo "$res" | grep -A1 "^VIOLATION" | grep "key=" | head -1 | sed 's/^ *key=//' | cut -c1-160 | sed 's/\\/\\\\/g; s/"/\\"/g')
+    n=$(printf "%s\n" "$res" | grep -c "^VIOLATION")
+    key=$(printf "%s\n" "$res" | grep -A1 "^VIOLATION" | grep "key=" | head -1 | sed 's/^ *key=//' | cut -c1-160 | tr -d '\000-\037' | sed 's/\\/\\\\/g; s/"/\\"/g')
     st="caught"; [ "$n" = "0" ] && st="not caught"
   else
     st="patch does not apply"; n=0; key=""
